@@ -112,8 +112,8 @@ theorem closeNow_eq_flip_teardown (s : S) (ht : s.tearPending = false) :
 /-- Close with a backlog, a Write and an EPOLLOUT event between the flip and the teardown: both are
     refused / ignored, then the teardown releases the queue and notifies once -/
 example :
-    let s1 := run g0 init [.register, .write [1, 2, 3] (.wrote 1), .flipClosed]
-    let s2 := run g0 init [.register, .write [1, 2, 3] (.wrote 1), .flipClosed, .write [9] (.wrote 1),
+    let s1 := run g0 init [.register, .write [1, 2, 3] [.wrote 1], .flipClosed]
+    let s2 := run g0 init [.register, .write [1, 2, 3] [.wrote 1], .flipClosed, .write [9] [.wrote 1],
       .evTake true false false [.wrote 5], .evEnd]
     let s3 := teardown s2
     s1.closed = true ∧ s1.tearPending = true ∧ s1.wl.length = 1 ∧ s1.onClose = 0 ∧
@@ -123,8 +123,8 @@ example :
 
 /-- a fatal Write leaves the teardown pending (it runs after the unlock); a fatal flush does both at once -/
 example :
-    let s1 := run g0 init [.register, .write [1, 2, 3] .fail]
-    let s2 := run g0 init [.register, .write [1, 2, 3] .eagain, .evTake true false false [.fail]]
+    let s1 := run g0 init [.register, .write [1, 2, 3] [.fail]]
+    let s2 := run g0 init [.register, .write [1, 2, 3] [.eagain], .evTake true false false [.fail]]
     s1.closed = true ∧ s1.tearPending = true ∧ s1.fdClosed = false ∧
     s2.closed = true ∧ s2.tearPending = false ∧ s2.fdClosed = true ∧ s2.onClose = 1 := by decide
 
